@@ -387,7 +387,7 @@ def translate_rankscore(path, wanted, module):
 #           | try: body except TypeError: raise RuntimeError(..)                 (-> body: typed values never raise TypeError)
 #           | def f(..): ..   (only usable as the key of sorted())
 #    e ::= int | name | self.a | e (+|-|*) e | l + l | l * e | not e | e and e | e or e | e (<|<=|>|>=|==|!=) e | e in l
-#        | e if c else e | Fraction(e, e) | len(e) | sum(e.values()) | votelib.util.sorted_votes(e) | range(e) | max/min(e, e)
+#        | e if c else e | Fraction(e, e) | Fraction(e) | len(e) | sum(e.values()) | votelib.util.sorted_votes(e) | range(e) | max/min(e, e)
 #        | e[:e] | [e, ..] | [e for x in e if c] | frozenset(e for x in e for y in e ..) | list(sorted(S, key=f)) (order dropped)
 #        | f(e, ..) for a translated function of the unit or a function-typed name | p.evaluate(votes[, prev_gains=prev_gains])
 #        | {k: e for x in e} | d.values() | d.get(k, e) | d[k] (k a key of d) | frozenset(l)
@@ -772,6 +772,10 @@ class TX:
         if name == 'Fraction' and len(args) == 2 and not kw:
             a, b = self.expr(args[0], env), self.expr(args[1], env)
             return '(py_frac %s %s)' % (self.coerce(a[0], a[1], T_Q, e), self.coerce(b[0], b[1], T_Q, e)), T_Q
+        if name == 'Fraction' and len(args) == 1 and not kw:
+            # Fraction(x) of a number (int, Fraction, Decimal - typed Z / Q here) is that number, exactly
+            a = self.expr(args[0], env)
+            return self.coerce(a[0], a[1], T_Q, e), T_Q
         if name == 'len' and len(args) == 1 and not kw:
             a = self.expr(args[0], env)
             if a[1][0] == 'L':
